@@ -25,10 +25,12 @@ RULE = ("universe of 4-8 objects (1-3 Workflows, 0-3 empty Macros, leaves; label
         "(composite/None/non-composite; the node may already carry a reserved name), remove_child by instance/label, replace_child by instance/label, "
         "marking starting nodes; ~75% of the operations are biased towards being applicable, the rest is "
         "arbitrary (clashes, second parents, cycles, workflows as children, reserved names: methods, properties, "
-        "instance-only attributes such as executor/running/starting_nodes and a user-set plain attribute); a history is abandoned "
+        "instance-only attributes such as executor/running/starting_nodes, a user-set plain attribute, NON-PUBLIC "
+        "attributes and methods such as _inputs/_parent/_children/_get_unique_label and dunders); a history is abandoned "
         "at the first operation after which the property fails on the implementation (never, on the repaired code). "
         "Labels include whitespace variants of sibling labels ('a ' next to 'a'). ORACLE-ONLY family (not in Lex.v): "
-        "8 macro classes with a real graph creator (hand-wired run signals + starting_nodes or automatic flow, inputs "
+        "11 macro classes with a real graph creator (incl. creators that name a child like a non-public / instance-only "
+        "attribute and must be refused, and one with a harmless underscore label) (hand-wired run signals + starting_nodes or automatic flow, inputs "
         "no child uses, forked inputs, nested macros) x 5 ways into a workflow x run/not: the tree invariant incl. "
         "starting_nodes <= children is checked on the whole object tree after construction, nesting, run, removal. Non-trivial = some "
         "operation changed the ownership state; distinct = distinct (universe, history)")
@@ -127,7 +129,27 @@ def MacNestAuto(self, x=0, spare=1):
     return self.other
 
 
-MACROS = {f.__name__: f for f in (MacManSpare, MacAutoSpare, MacManTwoSpare, MacManFork, MacManPlain,
+@as_macro_node("out")
+def MacPrivateClash(self, a=0):
+    self._inputs = Leaf13(a)      # collides with the macro's own (non-public) attribute: must be refused
+    return self._inputs
+
+
+@as_macro_node("out")
+def MacInstanceClash(self, a=0):
+    self.first = Leaf13(a)
+    self.running = Leaf13(self.first)   # collides with an instance-only attribute: must be refused
+    return self.running
+
+
+@as_macro_node("out")
+def MacPrivateFine(self, a=0):
+    self._helper = Leaf13(a)      # an underscore label that collides with nothing is fine
+    return self._helper
+
+
+REFUSED_AT_CONSTRUCTION = {"MacPrivateClash", "MacInstanceClash"}
+MACROS = {f.__name__: f for f in (MacPrivateClash, MacInstanceClash, MacPrivateFine, MacManSpare, MacAutoSpare, MacManTwoSpare, MacManFork, MacManPlain,
                                   MacManOnlySpare, MacNestMan, MacNestAuto)}
 HOSTS = ["none", "attr", "add", "kw", "two"]     # how the macro gets into a workflow (two = a second, connected copy)
 
@@ -196,7 +218,8 @@ def run_macro_case(case):
                 box["m"].parent = wf
             elif host == "two":
                 wf.m = box["m"]
-                wf.n = cls(x=wf.m) if "x" in box["m"].inputs.labels else cls()
+                first = box["m"].inputs.labels[0]
+                wf.n = cls(**{first: wf.m}) if first in ("x", "a") else cls()
         stage("nest", nest)
     if case["run"] and "m" in box:
         stage("run", lambda: (box.get("wf") or box["m"])())
@@ -209,6 +232,8 @@ def macro_oracle(case, obs):
     if not isinstance(obs, list) or not obs:
         return "driver: no observation"
     for name, res, snap in obs:
+        if case["cls"] in REFUSED_AT_CONSTRUCTION and name == "construct" and res == "AttributeError":
+            continue      # the clash was refused (the half-built macro is garbage); an accepted one is judged below
         if res != "ok":
             return f"macro-family-error: stage {name} of {case['cls']}/{case['host']} raised {res}"
         for where, ch, st, reserved in snap:
@@ -246,11 +271,21 @@ WS_VARIANTS = [v for l in POOL[:8] for v in (l + " ", " " + l, " " + l + " ")]
 
 def genuine_attributes(obj):
     """the composite's own attribute names, read off the object itself (instance __dict__ + everything its
-    class defines) -- deliberately NOT through obj.__dir__(), which is the code under test"""
-    return set(vars(obj)) | set(dir(type(obj)))
+    class and its bases define, from their __dict__s) -- deliberately NOT through obj.__dir__(), which is the code
+    under test"""
+    return set(vars(obj)).union(*(vars(k) for k in type(obj).__mro__))
 
 
 ATTRS: dict[str, set] = {}     # every attribute name of a composite of each kind (for the oracle)
+
+
+# non-public attribute / method names of the composites (filled from the real objects below): as reserved as the
+# public ones; PRIVATE_FREE are underscore labels that collide with nothing and must be accepted
+PRIVATE: list[str] = []
+PRIVATE_FREE = ["_helper", "_x"]
+_PRIVATE_FIRST = ["_inputs", "_outputs", "_label", "_children", "_signals", "_parent", "_starting_node_labels",
+                  "_cached_inputs", "_user_data", "_detached_parent_path", "_check_label", "_get_unique_label",
+                  "_inputs_map", "_input_value_links", "__dict__", "__init__", "__class__"]
 
 
 def _reserved_tables():
@@ -259,8 +294,11 @@ def _reserved_tables():
     m = Macro13(label="resprobe")
     for o in (w, m):
         setattr(o, USERVAL, 7)
-    cand = set(POOL) | set(INSTANCE_ONLY) | set(WS_VARIANTS)
-    for l in POOL + INSTANCE_ONLY + WS_VARIANTS:
+    both = genuine_attributes(w) | genuine_attributes(m)
+    rest = sorted(n for n in both if n.startswith("_") and not n.startswith("__") and n not in _PRIVATE_FIRST)
+    PRIVATE[:] = [n for n in _PRIVATE_FIRST if n in both] + rest[::9]
+    cand = set(POOL) | set(INSTANCE_ONLY) | set(WS_VARIANTS) | set(PRIVATE) | set(PRIVATE_FREE)
+    for l in POOL + INSTANCE_ONLY + WS_VARIANTS + PRIVATE + PRIVATE_FREE:
         for i in range(12):
             cand.add(f"{l}{i}")
             for j in range(3):
@@ -292,8 +330,8 @@ def gen_universe(rng):
     lab_pool = ["a", "b", "c", "a0", "m", "w", "x", "a", "b"]
 
     def ulab(k):
-        if k != "W" and rng.random() < 0.1:
-            return rng.choice(INSTANCE_ONLY + ["run", "inputs"])
+        if k != "W" and rng.random() < 0.14:
+            return rng.choice(INSTANCE_ONLY + ["run", "inputs"] + PRIVATE[:10] + PRIVATE_FREE)
         return rng.choice(lab_pool)
     return [[k, ulab(k), rng.random() < 0.6] for k in kinds]
 
@@ -329,6 +367,8 @@ def gen_ops(rng, nodes, n_ops):
             return rng.choice(INSTANCE_ONLY)
         if r < 0.24:
             return rng.choice(WS_VARIANTS[:9] if rng.random() < 0.6 else WS_VARIANTS)   # "a ", " a", " a ", "b ", ...
+        if r < 0.35:
+            return rng.choice(PRIVATE[:8] if rng.random() < 0.5 else PRIVATE + PRIVATE_FREE)   # "_inputs", "_parent", ...
         return rng.choice(POOL if r < 0.56 else POOL[:8])
     for _ in range(n_ops):
         wild = rng.random() < 0.25
